@@ -44,7 +44,8 @@ fn count_forms(id: u32, full: bool) -> Vec<(String, Vec<Seg>)> {
 }
 
 fn ordered_clauses(pos: usize, full: bool) -> Vec<(String, ClauseSpec)> {
-    let masks: &[u8] = if full { &[7, 1, 2] } else { &[7, 1] };
+    // 6 = the disjunctive form `(2) | (1)`: an ordered call may match a later alternative
+    let masks: &[u8] = if full { &[7, 1, 2, 6] } else { &[7, 1, 6] };
     let mut out = vec![];
     for m in [M::C, M::E] {
         for mask in masks {
@@ -233,6 +234,31 @@ fn main() {
                 });
             }
         }
+    }
+    // every tuple arity: n ordered clauses composed as one real n-tuple (vh::spec::compose), methods
+    // alternating in a fixed irregular pattern so that any two exchanged positions differ
+    for total in 2..=16usize {
+        let clauses: Vec<ClauseSpec> = (0..total)
+            .map(|i| ClauseSpec::Single {
+                m: if (i * i + i / 3) % 2 == 0 { M::C } else { M::E },
+                entry: Entry::NextCall,
+                pat: PatSpec {
+                    mask: if i % 3 == 2 { 1 } else { 7 },
+                    segs: vec![Seg {
+                        resp: Resp::Ret(900 + i as u32),
+                        quant: Quant::Open,
+                    }],
+                },
+            })
+            .collect();
+        cases.push(Case {
+            label: format!("tuple-arity/{total}"),
+            config: Config { partial: false, clauses },
+            histories: HistGen::AcceptedPrefixes {
+                alphabet: vec![Call::new(M::C, 0), Call::new(M::E, 0), Call::new(M::C, 1)],
+                max_depth: total + 1,
+            },
+        });
     }
     ctx.watchdog(120, || J::Str("no progress in the C04 explorer".into()));
     let stats = explore_cases(ctx, &cases, opts, &c04_extra);
